@@ -76,6 +76,21 @@ pub fn canonical_full(v: &CanonicalJsonValue) -> Outcome<String> {
     Outcome::from(guarded(|| serde_json::to_string(v).map_err(|e| e.to_string())))
 }
 
+/// The `Display` form (documented to be the canonical form as well).
+pub fn canonical_display(v: &CanonicalJsonValue) -> Outcome<String> {
+    Outcome::from(guarded(|| Ok(v.to_string())))
+}
+
+/// `TryFrom<serde_json::Value>`.
+pub fn try_from_json_value(v: serde_json::Value) -> Outcome<CanonicalJsonValue> {
+    Outcome::from(guarded(|| CanonicalJsonValue::try_from(v).map_err(|e| e.to_string())))
+}
+
+/// `From<CanonicalJsonValue> for serde_json::Value`, printed by serde_json.
+pub fn into_json_value_text(v: CanonicalJsonValue) -> Outcome<String> {
+    Outcome::from(guarded(|| serde_json::to_string(&serde_json::Value::from(v)).map_err(|e| e.to_string())))
+}
+
 pub fn to_canonical_value(v: &serde_json::Value) -> Outcome<CanonicalJsonValue> {
     Outcome::from(guarded(|| ruma_common::canonical_json::to_canonical_value(v).map_err(|e| e.to_string())))
 }
